@@ -11,9 +11,9 @@
 
 namespace vf {
 
-enum RangeKind { RK_PTR = 0, RK_CPTR, RK_DEQUE, RK_LIST, RK_FWD, RK_INPUT, RK_MOVE, RK_COUNT };
+enum RangeKind { RK_PTR = 0, RK_CPTR, RK_DEQUE, RK_LIST, RK_FWD, RK_INPUT, RK_MOVE, RK_REVERSE, RK_COUNT };
 inline const char *range_kind_name(int k) {
-  static const char *n[] = {"T*", "const T*", "deque", "list", "forward_list", "single-pass", "move_iterator"};
+  static const char *n[] = {"T*", "const T*", "deque", "list", "forward_list", "single-pass", "move_iterator", "reverse_iterator"};
   return (k >= 0 && k < RK_COUNT) ? n[k] : "?";
 }
 
@@ -99,6 +99,14 @@ void with_range_copyable(int kind, const std::vector<int> &vals, Fn &fn) {
       st.n = tmp.size();
       st.pos = 0;
       fn(InputIt<E>(&st, false), InputIt<E>(&st, true));
+      break;
+    }
+    case RK_REVERSE: {  // random access but neither a pointer nor contiguous in iteration order
+      std::vector<E> tmp;
+      tmp.reserve(vals.size() + 1);
+      for (size_t i = vals.size(); i > 0; --i) tmp.push_back(ET<E>::make(vals[i - 1]));
+      const E *p = tmp.data();
+      fn(std::reverse_iterator<const E *>(p + tmp.size()), std::reverse_iterator<const E *>(p));
       break;
     }
     default: {
